@@ -269,3 +269,24 @@ Example spec_nonvacuous :
   spec_encode_field TYPE_SINT32 1 (VI (-1)) = [x08; x01] /\ spec_encode_field TYPE_SFIXED32 2 (VI (-2)) = [x15; xfe; xff; xff; xff] /\
   scalar_module TYPE_SINT64 = Some MSInt64.
 Proof. vm_compute. auto. Qed.
+
+(* ------------------------------------------------------------------ the model's defaults are the guide's *)
+Lemma spec_default_scalar_eq p : spec_default_scalar p = default_scalar p.
+Proof. destruct p; vm_compute; reflexivity. Qed.
+
+Lemma spec_default_msg_eq sc : forall d i, spec_default_msg d sc i = default_msg d sc i.
+Proof.
+  induction d as [|d IH]; intros i; cbn [spec_default_msg default_msg]; [reflexivity|].
+  destruct (nth_error sc i) as [fs|]; [|reflexivity]. f_equal. apply map_ext. intros f.
+  destruct f as [t ty|t ty|t ty|t k vt|ms]; cbn [spec_default_field default_field]; try reflexivity.
+  destruct ty as [p|j]; [apply spec_default_scalar_eq|apply IH].
+Qed.
+
+Theorem defaults_spec :
+  (forall p, spec_default_scalar p = default_scalar p) /\
+  (forall d sc i, spec_default_msg d sc i = default_msg d sc i) /\
+  (forall d sc t, match t with TScalar p => spec_default_scalar p | TMsg j => spec_default_msg d sc j end = default_ty d sc t).
+Proof.
+  split; [exact spec_default_scalar_eq|]. split; [intros; apply spec_default_msg_eq|].
+  intros d sc [p|j]; cbn [default_ty]; [apply spec_default_scalar_eq|apply spec_default_msg_eq].
+Qed.
